@@ -153,6 +153,13 @@ func generate(r *runner.Run, emit func(job) bool) {
 		flush(lc, batchMax)
 	}
 
+	// ---- sweep "change": the same, after the route's configuration CHANGED while the application runs (change_test.go):
+	// configuration histories (single-option reloads, chains of two, a management mutation) x reduced header sweep; one
+	// batch = one history in its own application
+	for _, cc := range changeCases(r.Thorough()) {
+		flush(cc, len(cc))
+	}
+
 	// ---- sweep "unicode": one representative per (general category x plane) and the escaping boundary cases,
 	// as header value and as payload, through ingress / publish / Store.Enqueue (unicode_test.go)
 	{
